@@ -364,13 +364,13 @@ CtfDeck makeCtfDeck(vh::Rng& r, bool wild, int& maskCounter) {
 // histories: one observed well W1 (+ a bystander W2), COMPDAT / WPIMULT / WELOPEN over steps
 
 struct SeqOp {
-    char kind;               // 'C','W','O'
+    char kind;               // 'C','W','O','L'
     bool onW1;               // applies to W1 (name W1 or pattern W*)
     std::string text;        // keyword + record
     Rec rec;                 // kind C
     double factor = 1;       // kind W
     std::string state;       // kind O
-    std::array<std::optional<int>,5> sel;   // i j k c1 c2 (kind W/O); nullopt = 1*
+    std::array<std::optional<int>,5> sel;   // i j k c1 c2 (kind W/O); nullopt = 1*;  kind L: i j k1 k2 and sel[4] = N
 };
 
 struct SeqDeck { Scenario s; std::string ord; int headI, headJ; std::vector<std::vector<SeqOp>> steps; std::string text; };
@@ -419,7 +419,7 @@ SeqDeck makeSeqDeck(vh::Rng& r, const std::string& tier, bool allowNeg) {
                 fillItems(r, s, rec, i, j, k1 - 1, (int) r.below(16), false);
                 op.text = "COMPDAT\n" + rec.text() + "/\n";
             } else {
-                op.kind = kindSel < 7 ? 'W' : 'O';
+                op.kind = kindSel < 7 ? 'W' : ((kindSel == 9 && r.coin()) ? 'L' : 'O');
                 auto pickItem = [&](int hi, int) -> std::optional<int> {
                     switch (r.below(8)) {
                         case 0: case 1: case 2: return std::nullopt;
@@ -435,7 +435,18 @@ SeqDeck makeSeqDeck(vh::Rng& r, const std::string& tier, bool allowNeg) {
                 else if (style == 1) { op.sel[0] = r.range(1, s.nx); op.sel[1] = r.range(1, s.ny); op.sel[2] = r.range(1, s.nz); }
                 else if (style == 2) { int a = r.range(1, 6); op.sel[3] = a; op.sel[4] = r.range(a, 8); }
                 else { op.sel = { pickItem(s.nx, 0), pickItem(s.ny, 1), pickItem(s.nz, 2), pickItem(8, 3), pickItem(8, 4) }; }
-                if (op.kind == 'W') {
+                if (op.kind == 'L') {
+                    // COMPLUMP: I J K1 K2 N (0 or 1* = any), lumps several connections into one completion
+                    const int k1 = r.range(1, s.nz);
+                    op.sel = { std::nullopt, std::nullopt, std::nullopt, std::nullopt, r.range(1, 6) };
+                    switch (r.below(4)) {
+                        case 0: break;
+                        case 1: op.sel[2] = k1; op.sel[3] = r.range(k1, s.nz); break;
+                        case 2: op.sel[0] = r.range(0, s.nx); op.sel[1] = r.range(0, s.ny); break;
+                        default: op.sel[0] = d.headI; op.sel[1] = d.headJ; op.sel[2] = k1; op.sel[3] = r.coin() ? 0 : r.range(k1, s.nz); break;
+                    }
+                    op.text = "COMPLUMP\n '" + wname + "'" + selText(op.sel) + " /\n/\n";
+                } else if (op.kind == 'W') {
                     op.factor = r.pick(std::vector<double>{ 0.5, 2.0, 1.3, 0.1, 3.75, 1.0 });
                     op.text = "WPIMULT\n '" + wname + "' " + num(op.factor) + selText(op.sel) + " /\n/\n";
                 } else {
@@ -445,6 +456,14 @@ SeqDeck makeSeqDeck(vh::Rng& r, const std::string& tier, bool allowNeg) {
             }
             sch += op.text;
             ops.push_back(op);
+            if (op.kind == 'W' && !op.sel[0] && !op.sel[1] && !op.sel[2] && !op.sel[3] && !op.sel[4] && r.coin()) {
+                // a second all-defaulted WPIMULT in the same report step: only the last one counts
+                SeqOp op2 = op;
+                op2.factor = r.pick(std::vector<double>{ 0.25, 4.0, 1.7 });
+                op2.text = "WPIMULT\n '" + wname + "' " + num(op2.factor) + selText(op2.sel) + " /\n/\n";
+                sch += op2.text;
+                ops.push_back(op2);
+            }
         }
         sch += "TSTEP\n 1 /\n";
         d.steps.push_back(ops);
@@ -460,8 +479,8 @@ std::string itemTok(const DeckItem& it) { return it.defaultApplied(0) ? std::str
 struct SeqTokens { std::vector<std::vector<std::string>> steps; };
 
 SeqTokens seqTokens(const SeqDeck& d, const Deck& deck) {
-    auto cs = recordsOf(deck, "COMPDAT"), ws = recordsOf(deck, "WPIMULT"), os = recordsOf(deck, "WELOPEN");
-    size_t ci = 0, wi = 0, oi = 0;
+    auto cs = recordsOf(deck, "COMPDAT"), ws = recordsOf(deck, "WPIMULT"), os = recordsOf(deck, "WELOPEN"), ls = recordsOf(deck, "COMPLUMP");
+    size_t ci = 0, wi = 0, oi = 0, li = 0;
     SeqTokens out;
     for (const auto& ops : d.steps) {
         std::vector<std::string> toks;
@@ -478,6 +497,11 @@ SeqTokens seqTokens(const SeqDeck& d, const Deck& deck) {
                 if (!op.onW1) continue;
                 toks.push_back("W " + vh::hexF64(rec.getItem("WELLPI").get<double>(0)) + " " + itemTok(rec.getItem("I")) + " " + itemTok(rec.getItem("J")) + " " +
                                itemTok(rec.getItem("K")) + " " + itemTok(rec.getItem("FIRST")) + " " + itemTok(rec.getItem("LAST")));
+            } else if (op.kind == 'L') {
+                const auto& rec = *ls.at(li++);
+                if (!op.onW1) continue;
+                toks.push_back("L " + std::to_string(rec.getItem("N").get<int>(0)) + " " + itemTok(rec.getItem("I")) + " " + itemTok(rec.getItem("J")) + " " +
+                               itemTok(rec.getItem("K1")) + " " + itemTok(rec.getItem("K2")));
             } else {
                 const auto& rec = *os.at(oi++);
                 if (!op.onW1) continue;
@@ -702,7 +726,7 @@ int main(int argc, char** argv) {
             for (size_t q = 0; q < d.cases.size(); ++q) {
                 const auto& cc = d.cases[q];
                 const Connection* c = findConn(l->sched->getWell(cc.rec.well, 0).getConnections(), cc.i, cc.j, cc.k);
-                const std::string where = cc.rec.text();
+                std::string where = cc.rec.text(); where.pop_back();
                 if (!c) { log.fail("connection-missing", where); continue; }
                 const auto cd = cellData(*l->es, cc.i, cc.j, cc.k);
                 const long double CF = c->CF(), Kh = c->Kh(), r0 = c->r0(), rw = c->rw(), S = c->skinFactor();
@@ -792,42 +816,52 @@ int main(int argc, char** argv) {
                 if (cur.size() < prev.size()) log.fail("frame.length", where);
                 std::set<int> complnums;
                 for (const auto& c : cur) complnums.insert(c.complnum);
-                if (complnums.size() != cur.size()) log.fail("frame.complnum-unique", where);
+                bool lumped = false;
+                for (size_t tt = 0; tt <= t; ++tt) for (const auto& op : d.steps[tt]) if (op.kind == 'L' && op.onW1) lumped = true;
+                if (!lumped && complnums.size() != cur.size()) log.fail("frame.complnum-unique", where);
+                // no connection added in this step: the order must be what it was, whatever COMPORD says
+                if (cur.size() == prev.size())
+                    for (size_t p = 0; p < cur.size(); ++p)
+                        if (!(cur[p].i == prev[p].i && cur[p].j == prev[p].j && cur[p].k == prev[p].k)) { log.fail("frame.order-stable", where + " pos=" + std::to_string(p)); break; }
                 for (size_t p = 0; p < prev.size(); ++p) {
                     const Snap& o = prev[p];
                     auto it = curBy.find(snapKey(o));
                     if (it == curBy.end()) { log.fail("frame.vanished", where + " cell=" + snapKey(o)); continue; }
                     const Snap& c = *it->second;
-                    if (c.complnum != o.complnum || c.sort != o.sort) log.fail("frame.complnum", where + " cell=" + snapKey(o));
+                    if (c.sort != o.sort) log.fail("frame.sort-value", where + " cell=" + snapKey(o));
                     if (d.ord == "INPUT" && !(cur[p].i == o.i && cur[p].j == o.j && cur[p].k == o.k)) log.fail("frame.order", where + " pos=" + std::to_string(p));
                     // replay the step's records on this one connection according to the documented semantics
                     bool compdat = false, anyW = false, anyO = false;
                     long double mult = 1; std::optional<double> global;
-                    Connection::State st = o.state;
+                    Snap e = o;      // expected state, evolving record by record
                     for (const auto& op : d.steps[t]) {
                         if (!op.onW1) continue;
                         if (op.kind == 'C') {
                             const int I = op.rec.I == 0 ? d.headI : op.rec.I, J = op.rec.J == 0 ? d.headJ : op.rec.J;
-                            if (I == o.i + 1 && J == o.j + 1 && op.rec.K1 <= o.k + 1 && o.k + 1 <= op.rec.K2) { compdat = true; mult = 1; st = Connection::State::OPEN; }
+                            if (I == o.i + 1 && J == o.j + 1 && op.rec.K1 <= o.k + 1 && o.k + 1 <= op.rec.K2) compdat = true;
                         } else if (op.kind == 'W') {
-                            bool allDef = true, anyNeg = false;
-                            for (auto& v : op.sel) { if (v && *v >= 0) allDef = false; if (v && *v < 0) anyNeg = true; }
-                            if (allDef) global = op.factor;                // applies to the whole well at the end of the step
-                            else if (!anyNeg && selected(op.sel, o)) { mult *= op.factor; anyW = true; }
-                            else if (anyNeg) { /* negative selector in a non-global record: documented as "defaulted"; implementation matches nothing */ anyW = anyW; }
-                        } else {
-                            bool allStar = true, anyNeg = false;
-                            for (auto& v : op.sel) { if (v) allStar = false; if (v && *v < 0) anyNeg = true; }
-                            if (!allStar && !anyNeg && selected(op.sel, o)) {
+                            bool allDef = true;
+                            for (auto& v : op.sel) if (v && *v >= 0) allDef = false;
+                            if (allDef) global = op.factor;                // applies to the whole well at the end of the step, last one wins
+                            else if (selected(op.sel, e)) { mult *= op.factor; anyW = true; }
+                        } else if (op.kind == 'O') {
+                            bool allStar = true;
+                            for (auto& v : op.sel) if (v) allStar = false;
+                            if (!allStar && selected(op.sel, e)) {
                                 anyO = true;
-                                st = op.state == "OPEN" ? Connection::State::OPEN : op.state == "AUTO" ? Connection::State::AUTO : Connection::State::SHUT;
+                                e.state = op.state == "OPEN" ? Connection::State::OPEN : op.state == "AUTO" ? Connection::State::AUTO : Connection::State::SHUT;
                             }
+                        } else {   // COMPLUMP I J K1 K2 N
+                            auto any = [](const std::optional<int>& v) { return !v || *v == 0; };
+                            if ((any(op.sel[0]) || *op.sel[0] == e.i + 1) && (any(op.sel[1]) || *op.sel[1] == e.j + 1) &&
+                                (any(op.sel[2]) || e.k + 1 >= *op.sel[2]) && (any(op.sel[3]) || e.k + 1 <= *op.sel[3]))
+                                e.complnum = *op.sel[4];
                         }
                     }
                     if (compdat) { ++stats["frame.retargeted"]; log.ok(); continue; }   // re-entered: only identity (checked above) is promised
                     if (global) mult *= *global;
-                    Snap e = o; e.state = st;
                     const bool scaled = anyW || global;
+                    if (c.complnum != e.complnum) log.fail("frame.complnum", where + " cell=" + snapKey(o));
                     bool ok = c.i == e.i && c.j == e.j && c.k == e.k && c.state == e.state && c.dir == e.dir && c.Kh == e.Kh && c.r0 == e.r0 && c.rw == e.rw &&
                               c.skin == e.skin && c.depth == e.depth && c.Ke == e.Ke && c.connLen == e.connLen && c.fromDeck == e.fromDeck;
                     if (scaled) ok = ok && relClose(c.CF, (long double) o.CF * mult, 1e-14L) && relClose(c.wpimult, (long double) o.wpimult * mult, 1e-14L);
